@@ -65,6 +65,14 @@ func (c *c16Clock) MeasureClockOffset(ctx context.Context) (time.Time, time.Dura
 		}
 	}
 	if c.fail {
+		// a clock may fail with a context error of its own (a sub-deadline it set itself, as the NTS key
+		// exchange does) long before the round is over: it is a failure like any other (seed C16-j)
+		switch c.id % 3 {
+		case 1:
+			return time.Time{}, 0, fmt.Errorf("scripted clock: own sub-deadline: %w", context.DeadlineExceeded)
+		case 2:
+			return time.Time{}, 0, fmt.Errorf("scripted clock: gave up: %w", context.Canceled)
+		}
 		return time.Time{}, 0, errC16
 	}
 	return time.Unix(1700000000+int64(c.id), 0), time.Duration(1000 + c.id), nil
